@@ -49,3 +49,29 @@ func VerifC41RuleMap(conf tls_rule_conf.BfeTlsRuleConf, caMap map[string]*x509.C
 	m.Update(conf, caMap, map[string]*bfe_tls.CRLPool{})
 	return m
 }
+
+// VerifC41TLSServer is a BfeServer reduced to what TLS configuration (re)loading touches: the certificate map, the rule
+// map and the configuration directories.  TLSConfLoad is the production (*BfeServer).tlsConfLoad — the function behind
+// start-up and the `tls_conf` reload command —, i.e. files on disk → loaders and validators → MultiCertMap.Update and
+// TLSServerRuleMap.Update.
+type VerifC41TLSServer struct{ srv *BfeServer }
+
+func VerifC41NewTLSServer(confRoot, clientCADir, clientCRLDir string) *VerifC41TLSServer {
+	s := new(BfeServer)
+	s.ConfRoot = confRoot
+	s.Config.HttpsBasic.ClientCABaseDir = clientCADir
+	s.Config.HttpsBasic.ClientCRLBaseDir = clientCRLDir
+	s.MultiCert = NewMultiCertMap(new(ProxyState))
+	s.TLSServerRule = NewTLSServerRuleMap(new(ProxyState))
+	return &VerifC41TLSServer{s}
+}
+
+func (v *VerifC41TLSServer) TLSConfLoad(certConfFile, tlsRuleFile string) error {
+	return v.srv.tlsConfLoad(certConfFile, tlsRuleFile)
+}
+
+func (v *VerifC41TLSServer) ServerRule() *TLSServerRuleMap { return v.srv.TLSServerRule }
+func (v *VerifC41TLSServer) MultiCert() *MultiCertMap      { return v.srv.MultiCert }
+
+// Loaded reports whether a configuration has ever been accepted (the default certificate is set).
+func (v *VerifC41TLSServer) Loaded() bool { return v.srv.MultiCert.GetDefault() != nil }
